@@ -215,6 +215,67 @@ def h_drain_roland(mode: int, c0: int, c1: int, start: int, s_end: int, r_end: i
     return 1
 
 
+def h_drain_akai(nsec: int, s0: int, s1: int, fsize: int, start: int, end: int) -> int:
+    """
+    pre: 1 <= nsec <= 2
+    pre: 1 <= s0 <= 40 and 1 <= s1 <= 40 and s0 != s1
+    pre: 0 <= fsize <= 0xFFFFFF and 0 <= start <= 0xFFFFFFFF and 0 <= end <= 0xFFFFFFFF
+    post: _ == 1
+    """
+    CNT[0] += 1
+    from vf.props import c01
+    from vf.absfile import mkfile
+    nsec = conc(nsec, 1, 2)
+    f = mkfile(60 * c01.L_A)
+    chain = [s0, s1][:nsec]
+    total = blocks = 0
+    try:
+        smp = c01.build_sample(f, 2, 50, chain, fsize, start, end, s0)     # header size / play markers arbitrary (a damaged header)
+        g = smp.to_generalized()
+        from smpl_extract.generalized.wav import WavSampleAdapter
+        from smpl_extract.formats.wav import RiffStruct
+        cont = WavSampleAdapter(RiffStruct)._encode(g, {}, "")
+        for blk in cont["data"]["chunks"][-1]["data"]:
+            total += len(blk)
+            blocks += 1
+            if total > nsec * c01.L_A or len(blk) == 0 or blocks > nsec * c01.L_A // 2 + 2:
+                return 0                            # more than the chain holds: re-reading, would never end
+    except Exception:
+        return 1
+    return 1
+
+
+def h_drain_cdda(fa: int, fb: int, binlen: int, which: int) -> int:
+    """
+    pre: 0 <= fa <= 6 and 0 <= fb <= 6 and 0 <= binlen <= 4 * 2352 + 100 and 0 <= which <= 1
+    post: _ == 1
+    """
+    CNT[0] += 1
+    from vf.absfile import mkfile
+    from smpl_extract.cuesheet import CueSheetFile, CueSheetTrack, CueSheetIndex
+    from smpl_extract.cdda.image import CompactDiskAudioImageAdapter
+    from smpl_extract.generalized.wav import WavSampleAdapter
+    from smpl_extract.formats.wav import RiffStruct
+    # two tracks whose index times are NOT assumed increasing or inside the bin (a damaged or hand-edited sheet)
+    sheet = CueSheetFile("x.bin", [CueSheetTrack(1, "AUDIO", None, [CueSheetIndex(1, 0, 0, fa)]),
+                                  CueSheetTrack(2, "AUDIO", "B", [CueSheetIndex(1, 0, 0, fb)])])
+    total = blocks = 0
+    try:
+        f = mkfile(binlen)
+        img = CompactDiskAudioImageAdapter.from_bin_cue(f, sheet)
+        t = img.tracks[1] if which == 1 else img.tracks[0]
+        g = t.to_generalized()
+        cont = WavSampleAdapter(RiffStruct)._encode(g, {}, "")
+        for blk in cont["data"]["chunks"][-1]["data"]:
+            total += len(blk)
+            blocks += 1
+            if total > binlen or len(blk) == 0 or blocks > binlen // 4 + 2:
+                return 0
+    except Exception:
+        return 1
+    return 1
+
+
 # ------------------------------------------------------------------ C13.regex: no live pattern has an exponentially ambiguous starred group
 def _live_patterns():
     """every compiled pattern reachable as a module global or class attribute of the package (what the code under analysis really uses)"""
@@ -363,6 +424,12 @@ def obligations(tier, seed):
     for kind in (0, 1):
         obs.append(ob(f"C13.read/kind={kind}", "h_readall", [f"kind == {kind}"], "view length, buffer_length, window offset / sectors", "length <= 3 buffers + 5",
                       stubs=["AbsFile/Spans"]))
+    for nsec in (1, 2):
+        obs.append(ob(f"C13.drain/akai/nsec={nsec}", "h_drain_akai", [f"nsec == {nsec}"], "chain, file size (24 bit), play start / end (32 bit, NOT assumed ordered or inside the file)",
+                      f"{nsec}-sector chain; emitted bytes <= chain bytes as unwinding assertion", stubs=["AbsFile/Spans", "StubSat"]))
+    for which in (0, 1):
+        obs.append(ob(f"C13.drain/cdda/track={which + 1}", "h_drain_cdda", [f"which == {which}"], "both index times (frames 0..6, NOT assumed increasing or inside the bin), bin length",
+                      "2 tracks, bin <= 4 sectors + 100 bytes; emitted bytes <= bin bytes as unwinding assertion", stubs=["AbsFile/Spans"]))
     obs.append(dict(name="C13.regex", engine="P", module="vf.props.c13", func="p_regex", params={"cap": 4 if q else 6}, timeout=120, runs=RUNS,
                     sym="a string of <= 4 (6) characters per repeated group of every live pattern", bound="two parses as one or two iterations of the group", stubs=["SymPattern"]))
     for mode in range(8):
